@@ -198,13 +198,19 @@ static pid_t process_fork(const int *except, size_t num_except)
     pipe_destroy(pipe.write);
 
     int child_errno = 0;
-    q = (int) read(pipe.read, &child_errno, sizeof(child_errno));
+    // A signal handler can interrupt `read`. We have to know whether the child
+    // reported an error so we try again.
+    do {
+      q = (int) read(pipe.read, &child_errno, sizeof(child_errno));
+    } while (q < 0 && errno == EINTR);
     ASSERT_UNUSED(q >= 0);
 
     if (child_errno > 0) {
       // If the child writes to the error pipe and exits, we're certain the
       // child process exited on its own and we can report errors as usual.
-      r = waitpid(child, NULL, 0);
+      do {
+        r = waitpid(child, NULL, 0);
+      } while (r < 0 && errno == EINTR);
       ASSERT(r < 0 || r == child);
 
       r = r < 0 ? -errno : -child_errno;
@@ -450,11 +456,17 @@ int process_start(pid_t *process,
   pipe.write = pipe_destroy(pipe.write);
 
   int child_errno = 0;
-  r = (int) read(pipe.read, &child_errno, sizeof(child_errno));
+  // A signal handler can interrupt `read`. We have to know whether the child
+  // reported an error so we try again.
+  do {
+    r = (int) read(pipe.read, &child_errno, sizeof(child_errno));
+  } while (r < 0 && errno == EINTR);
   ASSERT_UNUSED(r >= 0);
 
   if (child_errno > 0) {
-    r = waitpid(child, NULL, 0);
+    do {
+      r = waitpid(child, NULL, 0);
+    } while (r < 0 && errno == EINTR);
     r = r < 0 ? -errno : -child_errno;
     goto finish;
   }
